@@ -8,6 +8,7 @@ package pac
 
 import (
 	"fmt"
+	"reflect"
 	"strings"
 
 	"github.com/dop251/goja"
@@ -19,6 +20,13 @@ func isNullOrUndefined(v goja.Value) bool {
 
 func asString(v goja.Value) (string, bool) {
 	if v == nil {
+		return "", false
+	}
+	// A Symbol exports as its description: only a JavaScript string is a string.
+	if v.ExportType() == nil || v.ExportType().Kind() != reflect.String {
+		return "", false
+	}
+	if _, isSymbol := v.(*goja.Symbol); isSymbol {
 		return "", false
 	}
 	s, ok := v.Export().(string)
